@@ -45,7 +45,28 @@ def literal_bytes():
                 continue
             r.oblige(s, 'rfc4880-5.9:format,name-length,name,time,data/p%d' % pi,
                      ex.seq(v, s) == cat(HDR, U(FMT), U(z3.Length(NAME)), NAME, be(EPOCH, 4), DATA))
-        return r.result()
+        res = r.result()
+        # a name that does not fit the one-octet length field: refused, never emitted in some other shape (a cut at 255 octets can fall
+        # inside a character, and a wrapped length would mis-frame the packet)
+        r2 = scn.Run(repo, P + 'LiteralData', '__bytearray__', label + '[name longer than 255 octets]')
+        ex2, st2 = r2.ex, r2.st
+        st2.pc += [FMT >= 0, FMT < 256, EPOCH >= 0, EPOCH < 2 ** 32, z3.Length(NAME) >= 256]
+        r2.set('pkt', 'format', E.VStr(z=z3.Unit(FMT), cp=True))
+        r2.set('pkt', 'filename', E.VStr(z=NAME))
+        r2.set('pkt', '_mtime', mtime)
+        r2.set('pkt', '_contents', ex2.new_buf(st2, DATA))
+        r2.hook('pgpy.packet.types.Packet', '__bytearray__', scn.method_hook(lambda ex, st, o, a: [(st, ex.new_buf(st, HDR))]))
+        ex2.hooks[('ext', 'calendar.timegm')] = timegm
+        nraise = 0
+        for pi, (s, v) in enumerate(r2.call(E.VObj(P + 'LiteralData', 'pkt'), [])):
+            if isinstance(v, E.Raise):
+                nraise += 1
+                r2.oblige(s, 'refused-with-ValueError/p%d' % pi, z3.BoolVal(v.exc.split(':')[0] == 'ValueError'), v.where)
+                continue
+            r2.oblige(s, 'nothing-is-emitted-for-a-name-that-does-not-fit/p%d' % pi, z3.BoolVal(False))
+        r2.oblige(st2, 'cover-the-refusal', z3.BoolVal(nraise > 0))
+        res2 = r2.result()
+        return {'obligations': res['obligations'] + res2['obligations'], 'funcs': res['funcs'] + res2['funcs'], 'paths': 0}
     return Scenario(label, P + 'LiteralData.__bytearray__', gen, props=('C08', 'C20', 'C09'))
 
 
